@@ -138,6 +138,8 @@ Process(S, errp) ==
                      ELSE LET r == CHOOSE x \in T : TRUE IN
                           IF S1.st[r] # "sent" THEN Process(S1, errp)          \* early, duplicate or late reply: ignored
                           ELSE IF m.status # 0 THEN Process(SetErr(S1, {r}, <<"service", m.status>>), errp)
+                          \* extending service: a reply whose times / shape do not fit the request fails THAT request (invalid argument), nobody else
+                          ELSE IF ~m.fits THEN Process(SetErr(S1, {r}, <<"code", 256>>), errp)
                           ELSE Process([S1 EXCEPT !.st[r] = "resp", !.sigok[r] = m.hashok], errp)
 
 AfterRun == LET d == Dispatch(Rec)
@@ -205,6 +207,7 @@ RealCause(r, c) ==
                   \/ c[1] = "sndto" /\ (SndTo = 0 \/ clock - addT[r] > SndTo)
                   \/ c[1] = "rcvto" /\ (RcvTo = 0 \/ clock - sndT[r] > RcvTo)
                   \/ c[1] = "service"
+                  \/ c = <<"code", 256>>               \* set only by Process for a misfitting reply bearing r's id
 CauseIsReal == /\ \A r \in Reqs : st[r] = "err" => RealCause(r, cause[r])
                /\ (out.op = "run" /\ out.h # 0 /\ out.hstate = "err") => RealCause(out.h, out.hcause)
 TypeOK == /\ \A r \in Reqs : st[r] \in {"new", "queued", "sent", "resp", "err", "done", "refused"}
